@@ -1,4 +1,5 @@
 import ReplicatProofs.Lemmas.Chunker
+import ReplicatProofs.Lemmas.ChunkerLocal
 /-!
 # C10 — the chunker is a lossless, bounded, deterministic function of the stream
 
@@ -249,6 +250,27 @@ theorem invalid_params_witness :
   constructor
   · decide
   · decide
+
+
+/-! ## split independence and determinism -/
+
+/-- **Split independence.** For valid parameters the result is the segmentation-independent greedy chunking of the stream
+(`greedyFull`, a function of the bytes, the parameters and the hash only) followed by chunks that all start within the last
+two maximum lengths of the stream — for every way of handing the stream over in pieces. -/
+theorem chunk_split_indep (p : CParams) (hv : p.valid) (h : Hash) (pieces : List Bytes) (cs : List Bytes)
+    (hc : chunkAll p h pieces = some cs) :
+    ∃ g tail, greedyFull p h pieces.flatten = some g ∧ cs = g ++ tail ∧
+      pieces.flatten.length < g.flatten.length + 2 * p.max := by
+  obtain ⟨g, tail, hg, rfl⟩ := chunkAll_greedy p hv h pieces cs hc
+  exact ⟨g, tail, hg, rfl, (greedyFull_lossless p hv h g _ hg).2.2⟩
+
+/-- **Determinism.** The model of the adapter is a function: two runs on equal pieces, parameters and hash give equal
+chunks (there is no hidden state between calls; the tie runs one chunker object over interleaved streams). Together with
+`chunk_no_oob` (no byte outside the data is ever read) the result depends on nothing but the bytes and the parameters. -/
+theorem chunk_deterministic (p : CParams) (h h' : Hash) (pieces : List Bytes)
+    (hh : ∀ w : Bytes, w.length = 8 → h w = h' w) :
+    chunkAll p h pieces = chunkAll p h' pieces :=
+  feed_congr p h h' hh pieces []
 
 /-- non-vacuity: a concrete run satisfying the hypotheses of the theorems above -/
 example : (⟨4, 8⟩ : CParams).valid ∧
